@@ -21,6 +21,7 @@
 #define GALOIS_WORKLIST_STABLEITERATOR_H
 
 #include "galois/config.h"
+#include "galois/substrate/Verif.h"
 #include "galois/gstl.h"
 #include "galois/worklists/Chunk.h"
 
@@ -121,6 +122,7 @@ private:
     if (doSteal(data, data, true))
       return *data.localBegin++;
     // only try stealing one other
+    GALOIS_VERIF_POINT(STABLE_STEAL);
     if (doSteal(data, *TLDS.getRemote(data.nextVictim), false)) {
       // share the wealth
       if (data.nextVictim != substrate::ThreadPool::getTID())
